@@ -15,11 +15,14 @@ its children, a select question's `choices` Itemset (its options' slot dicts) an
 * `_delete_keys_from_dict` (survey_element.py:284-295): the key collection handed down is always a
   one-shot iterator (`itertools.chain` / generator expression), consumed by the loop over the top
   level, so the recursive calls into nested dicts delete nothing — modelled as top-level deletion;
-* `Question.to_json_dict` (question.py:229-240): also deletes the slots starting with `_` and every
-  key of the type-table entry, then puts back the truthy entries of `_qtd_kwargs`;
-* `Option.to_json_dict` (question.py:301-305), `Survey.to_json_dict` (survey.py:280-284): also
-  delete the slots starting with `_`;
-* `GroupedSection.to_json_dict` (section.py:275-283): also deletes `bind`; sets `type = "group"`.
+* `Question.to_json_dict` (question.py:229-247): also deletes the slots starting with `_` and every
+  key of the type-table entry, then puts back the truthy entries of `_qtd_kwargs`, then every
+  non-dict type-table key (`hint` of four types) whose slot value is truthy and differs from the
+  table's value;
+* `Option.to_json_dict` (question.py:301-311): also deletes the slots starting with `_`; then adds
+  the truthy entries of `extra_data` (extra choice columns) whose key is not already present;
+* `Survey.to_json_dict` (survey.py:280-284): also deletes the slots starting with `_`;
+* `GroupedSection.to_json_dict` (section.py:285-290): sets `type = "group"` (the `bind` is kept).
 
 `reloadSlots` is the part of the builder that matters for a dump/load/dump: `SurveyElement.__init__`
 (survey_element.py:100-124) and the class constructors store exactly the keys named in the class's
@@ -61,7 +64,7 @@ def clsDelete (cls : Cls) (names qtdKeys : List Str) : List Str :=
   | .question => underscored names ++ qtdKeys
   | .option => underscored names
   | .survey => underscored names
-  | .group => ["bind".toList]
+  | .group => []
   | .repeat => []
   | .other => []
 
@@ -69,23 +72,51 @@ def clsDelete (cls : Cls) (names qtdKeys : List Str) : List Str :=
 def allDelete (cls : Cls) (names qtdKeys extra : List Str) : List Str :=
   ["_survey_element_xpath".toList, "extra_data".toList] ++ clsDelete cls names qtdKeys ++ extra
 
+/-- the own (non-tree) part of a dump: what remains of the slots. -/
+def ownDump (del : List Str) (slots : Dict) : Dict := dropFalsy (delKeys del slots)
+
+/-- `for k, v in self.extra_data.items(): if v and k not in result: result[k] = v` -/
+def restoreExtra : Dict → Dict → Dict
+  | [], d => d
+  | (k, v) :: rest, d =>
+    restoreExtra rest (if truthy v && !(d.map Prod.fst).contains k then d ++ [(k, v)] else d)
+
+/-- an `Option`: its slot values and its `extra_data` (the extra columns of the choices sheet). -/
+abbrev Opt := Dict × Dict
+
 /-- an `Option`'s dump (`o.to_json_dict(delete_keys=("parent",))`). -/
-def optionToJson (slots : Dict) : J :=
-  .obj (dropFalsy (delKeys (allDelete .option (slots.map Prod.fst) [] ["parent".toList]) slots))
+def optionDump (o : Opt) : Dict :=
+  restoreExtra o.2 (ownDump (allDelete .option (o.1.map Prod.fst) [] ["parent".toList]) o.1)
+
+def optionToJson (o : Opt) : J := .obj (optionDump o)
 
 inductive El where
-  | mk (cls : Cls) (slots : Dict) (qtdKeys : List Str) (qtdKwargs : Dict) (kids : List El)
-       (opts : Option (List Dict)) (choices : List (Str × List Dict))
+  | mk (cls : Cls) (slots : Dict) (qtdKeys : List Str) (qtdKwargs : Dict) (qtdScalars : List (Str × Str))
+       (kids : List El) (opts : Option (List Opt)) (choices : List (Str × List Opt))
 
 /-- put back `_qtd_kwargs`: `for k, v in self._qtd_kwargs.items(): if v: result[k] = v` -/
 def restoreKwargs : Dict → Dict → Dict
   | [], d => d
   | (k, v) :: rest, d => restoreKwargs rest (if truthy v then setKey k v d else d)
 
+/-- Python `value != v` for a string `v` (the non-dict type-table values are strings). -/
+def neStr (value : J) (v : Str) : Bool :=
+  match value with
+  | .str s => s != v
+  | _ => true
+
+/-- put back overridden non-dict type-table keys:
+    `for k, v in self._qtd_defaults.items(): if not isinstance(v, dict): value = self[k]; if value and value != v: result[k] = value` -/
+def restoreScalars (slots : Dict) : List (Str × Str) → Dict → Dict
+  | [], d => d
+  | (k, v) :: rest, d =>
+    let value := (lookup k slots).getD .null
+    restoreScalars slots rest (if truthy value && neStr value v then setKey k value d else d)
+
 mutual
 /-- `e.to_json_dict(delete_keys=extra)` -/
 def toJson : El → List Str → J
-  | .mk cls slots qtdKeys kw kids opts choices, extra =>
+  | .mk cls slots qtdKeys kw scalars kids opts choices, extra =>
     let r := delKeys (allDelete cls (slots.map Prod.fst) qtdKeys extra) slots
     let r := if kids.isEmpty then r else r ++ [("children".toList, .arr (toJsonL kids))]
     let r := match opts with
@@ -94,7 +125,7 @@ def toJson : El → List Str → J
         if choices.isEmpty then r
         else r ++ [("choices".toList, .obj (choices.map fun (ln, os) => (ln, .arr (os.map optionToJson))))]
     let r := dropFalsy r
-    let r := if cls = .question then restoreKwargs kw r else r
+    let r := if cls = .question then restoreScalars slots scalars (restoreKwargs kw r) else r
     let r := if cls = .group then setKey "type".toList (.str "group".toList) r else r
     .obj r
 def toJsonL : List El → List J
@@ -102,12 +133,19 @@ def toJsonL : List El → List J
   | e :: es => toJson e ["parent".toList] :: toJsonL es
 end
 
-/-- the own (non-tree) part of a dump: what remains of the slots. -/
-def ownDump (del : List Str) (slots : Dict) : Dict := dropFalsy (delKeys del slots)
-
 /-- the slots of an element rebuilt from a dumped dict `d`: the class's slot names, each with the dumped
     value or a falsy initial value. -/
 def reloadSlots (names : List Str) (d : Dict) : Dict :=
   names.map fun n => (n, (lookup n d).getD .null)
+
+/-- `Question.__init__` for a non-dict type-table key: `elif k not in kwargs: kwargs[k] = v` — the dumped
+    value if there is one, the table's value otherwise. -/
+def reloadScalar (k v : Str) (d : Dict) : J := (lookup k d).getD (.str v)
+
+/-- `Option(**d)`: the keys that are not slots become `extra_data`, in dict order. -/
+def reloadExtra (names : List Str) (d : Dict) : Dict := d.filter fun kv => !names.contains kv.1
+
+/-- an `Option` rebuilt from its dumped dict. -/
+def reloadOption (names : List Str) (d : Dict) : Opt := (reloadSlots names d, reloadExtra names d)
 
 end Pyxv.ToJson
